@@ -402,17 +402,20 @@ def _call(it, name, args, st):
     vals = [it.read_ref(st, a) for a in args]
     # the term domain's older vector value is the same thing as a sequence
     vals = [Seq(v.items) if type(v).__name__ == "VecV" else v for v in vals]
+    # a fixed-size array read through a slice method is the sequence of its elements
+    vals = [Seq(v.fields) if isinstance(v, Agg) and v.kind == "array" and v.path is None else v for v in vals]
     a0 = vals[0] if vals else None
     if name == "std::iter::successors" and len(vals) == 2 and is_opt(vals[0]):
         return [("ret", it_adapt("successors", vals[0], vals[1]), st)]
     # ---- IntoIterator -----------------------------------------------------------------------------------------------------
-    if name.endswith("IntoIterator>::into_iter") or name == "std::iter::IntoIterator::into_iter":
+    if name.endswith("IntoIterator>::into_iter") or name == "std::iter::IntoIterator::into_iter" or \
+            ("IntoIterator for " in name and name.endswith("::into_iter")):
         v = to_iter(it, args[0], st)
         if v is not None:
             return [("ret", v, st)]
         return None
     # ---- sequences ----------------------------------------------------------------------------------------------------------
-    if _seq_family(name) or (isinstance(a0, Seq) and (" as std::ops::Index" in name or name.endswith("::deref") or name.endswith("::as_slice"))):
+    if _seq_family(name) or (isinstance(a0, Seq) and ("std::ops::Index" in name or name.endswith("::deref") or name.endswith("::as_slice"))):
         if m in ("new", "with_capacity") and not any(isinstance(v, Seq) for v in vals):
             return [("ret", Seq(()), st)]
         if not isinstance(a0, Seq):
@@ -440,6 +443,20 @@ def _call(it, name, args, st):
         if m == "get" and len(vals) == 2 and isinstance(vals[1], Const) and isinstance(vals[1].v, int):
             i = vals[1].v
             return [("ret", some(a0.items[i]) if 0 <= i < len(a0.items) else NONE, st)]
+        if m == "index" and len(vals) == 2 and isinstance(vals[1], Agg) and (vals[1].path or "").startswith("std::ops::Range"):
+            # a[i..], a[..j], a[i..j], a[..]: constant bounds only
+            r_ = vals[1]
+            kind_ = r_.path.rsplit("::", 1)[-1]
+            fs_ = [f.v if isinstance(f, Const) and isinstance(f.v, int) else None for f in r_.fields]
+            n_ = len(a0.items)
+            lo, hi = {"RangeFrom": (fs_[0] if fs_ else None, n_), "RangeTo": (0, fs_[0] if fs_ else None),
+                      "Range": (fs_[0] if len(fs_) > 1 else None, fs_[1] if len(fs_) > 1 else None),
+                      "RangeFull": (0, n_)}.get(kind_, (None, None))
+            if lo is None or hi is None:
+                return None
+            if not (0 <= lo <= hi <= n_):
+                return [("panic", "slice index out of range", st)]
+            return [("ret", Seq(a0.items[lo:hi]), st)]
         if m == "index" and len(vals) == 2 and isinstance(vals[1], Const) and isinstance(vals[1].v, int):
             i = vals[1].v
             if 0 <= i < len(a0.items):
